@@ -84,6 +84,9 @@ def draw_cfg(ch, logging_only=False, async_only=False, all_suspend=False, odd_it
     cfg.max_susp = 1 + ch.draw(3) if all_suspend else ch.draw(4)
     cfg.max_len = (3, 5, 7, 2)[ch.draw(4)]
     cfg.keyspace = (3, 2, 5, 1)[ch.draw(4)]
+    if ch.chance(1, 16):
+        # long inputs once in a while: whatever only starts to matter beyond a size threshold
+        cfg.max_len = (24, 40, 70)[ch.draw(3)]
     cfg.aclose_susp = ch.chance(1, 4)
     return cfg
 
